@@ -61,6 +61,10 @@ class SymPts:
     def __len__(self):
         return len(self.xs)
 
+    @property
+    def T(self):
+        return [SymCol(self.xs, U[0]), SymCol(self.xs, U[1]), SymCol(self.xs, U[2])]
+
     def __getitem__(self, idx):
         if isinstance(idx, tuple) and len(idx) == 2 and isinstance(idx[0], slice):
             rows = self.xs[idx[0]]
